@@ -1166,7 +1166,9 @@ func (r *realm) cleanSessionDetails(details wamp.Dict) wamp.Dict {
 			}
 		}
 	} else {
-		clean = details
+		// The result is published and returned to callers, so it must not be
+		// the session's own details, which can change later.
+		clean = maps.Clone(details)
 	}
 
 	// If there is no transport detail, all done.
@@ -1179,12 +1181,6 @@ func (r *realm) cleanSessionDetails(details wamp.Dict) wamp.Dict {
 	authDict := wamp.DictChild(transDict, "auth")
 	if authDict == nil {
 		return clean
-	}
-
-	// If a copy was not previously needed, it is now.
-	if !r.metaStrict {
-		clean = make(wamp.Dict, len(details))
-		maps.Copy(clean, details)
 	}
 
 	// If details.transport.auth exists, then provide version of transport
